@@ -127,5 +127,63 @@ fn xadd_fields(parts: &[RespFrame], out: &mut HashMap<Vec<u8>, Vec<u8>>) -> (r: 
         all_bulk(parts@, 3) ==> (r matches Ok(f) && !(f is Error)) && final(out)@ == fields_upto(parts@, (parts@.len() - 3) / 2),
 //@@ body
 //@@ end
+// ======================= XREAD: which id goes with which key (C15) =========================
+/// STUB of a stream entry as far as XREAD's `$` uses it, and MODEL of the engine's xrange for that use: all entries of the stream under (db, key)
+pub struct StreamEntry { pub id: StreamId }
+pub struct XStore { pub g: Ghost<int> }
+pub uninterp spec fn spec_entries(s: XStore, db: usize, key: Seq<u8>) -> Option<Seq<StreamEntry>>;
+impl XStore {
+    /// ASSUMED CONTRACT (engine.rs StorageEngine::xrange with the full range — unit xrange of shard_zsets)
+    #[verifier::external_body]
+    pub fn xrange(&self, db: usize, key: &[u8], start: StreamId, end: StreamId, count: Option<usize>) -> (r: Result<Vec<StreamEntry>>)
+        ensures match spec_entries(*self, db, key@) { Some(e) => r matches Ok(v) && v@ == e, None => r is Err },
+    { unimplemented!() }
+}
+impl StreamId {
+    /// ASSUMED CONTRACT (stream.rs StreamId::new — unit sid_new of c16_pel): here only the zero id
+    #[verifier::external_body]
+    pub fn new(millis: u64, seq: u64) -> (r: Self) ensures millis == 0 && seq == 0 ==> r.packed == 0, { unimplemented!() }
+}
+/// `all_entries.last()` (RT site)
+#[verifier::external_body]
+pub fn verif_last_entry<'a>(v: &'a Vec<StreamEntry>) -> (r: Option<&'a StreamEntry>) ensures v@.len() == 0 ==> r is None, v@.len() > 0 ==> (r matches Some(e) && *e == v@.last()), { unimplemented!() }
+/// the id XREAD reads after, for one id argument: `$` = the id of the stream's last entry (0-0 for an empty or missing stream), `0` / `0-0` = 0-0,
+/// otherwise the id the argument spells; None = refused
+pub open spec fn xread_after(s: XStore, db: usize, key: Seq<u8>, idb: Seq<u8>) -> Option<u128> {
+    if lossy(idb) == "$"@ { match spec_entries(s, db, key) { Some(e) => Some(if e.len() > 0 { e.last().id.packed } else { 0u128 }), None => None } }
+    else if lossy(idb) == "0"@ || lossy(idb) == "0-0"@ { Some(0u128) }
+    else { match sid_parse(idb) { Some(id) => Some(id.packed), None => None } }
+}
+/// the q-th (key, id) pair of XREAD: key = argument i+q, id = what argument i+n+q names for THAT key
+pub open spec fn pair_ok(s: XStore, db: usize, parts: Seq<RespFrame>, i: int, n: int, q: int, key: Seq<u8>, id: StreamId) -> bool {
+    arg(parts, i + q) is Some && arg(parts, i + n + q) is Some && key == arg(parts, i + q)->Some_0
+        && Some(id.packed) == xread_after(s, db, arg(parts, i + q)->Some_0, arg(parts, i + n + q)->Some_0)
+}
+//@@ unit xread_pairs stmts src/storage/commands/streams.rs handle_xread "let remaining" upto "let keys_and_ids_refs"
+//@@   opt same-return-type
+//@@   params add "storage: &XStore"
+//@@   rewrite R7 "id_str == \"$\"" verif_cow_is byref
+//@@   rewrite R7 "id_str == \"0\"" verif_cow_is byref
+//@@   rewrite R7 "id_str == \"0-0\"" verif_cow_is byref
+//@@   rewrite RPCALL "StreamId::from_string" verif_sid_from_cow
+//@@   rewrite RT "all_entries.last()" "verif_last_entry(&all_entries)"
+//@@   rewrite RT "last_entry.id.clone()" "last_entry.id"
+//@@   rewrite RT "let mut keys_and_ids = Vec::new();" "let mut keys_and_ids: Vec<(&Vec<u8>, StreamId)> = Vec::new();"
+//@@   rewrite RFORC 0
+//@@   loop 0
+//@@|     invariant
+//@@|         i < parts@.len(), remaining == parts@.len() - i, remaining % 2 == 0, num_keys == remaining / 2, keys_and_ids@.len() == j__n, j__n <= j__end, j__end == num_keys,
+//@@|         forall|q: int| 0 <= q < j__n ==> #[trigger] pair_ok(*storage, db, parts@, i as int, num_keys as int, q, keys_and_ids@[q].0@, keys_and_ids@[q].1),
+//@@|     decreases j__end - j__n,
+//@@   tail *out = keys_and_ids; Ok(RespFrame::ok())
+fn xread_pairs<'a>(storage: &XStore, db: usize, parts: &'a [RespFrame], i: usize, out: &mut Vec<(&'a Vec<u8>, StreamId)>) -> (r: Result<RespFrame>)
+    requires i < parts@.len(),
+    ensures
+        // C15 (XREAD ... STREAMS k1 .. kn id1 .. idn): the j-th key is read after the j-th id — not its neighbour's — for every j
+        (r matches Ok(f) && !(f is Error)) ==> (parts@.len() - i) % 2 == 0 && final(out)@.len() == (parts@.len() - i) / 2
+            && forall|q: int| 0 <= q < final(out)@.len() ==> #[trigger] pair_ok(*storage, db, parts@, i as int, final(out)@.len() as int, q, final(out)@[q].0@, final(out)@[q].1),
+        (parts@.len() - i) % 2 != 0 ==> (r matches Ok(f) && f is Error),
+//@@ body
+//@@ end
 } // verus!
 fn main() {}
